@@ -409,15 +409,10 @@ def _axis_class(name, failing, allv):
     failing, allv = sorted(set(failing)), sorted(set(allv))
     if failing == allv:
         return None
-    k = len(failing)
-    if failing == allv[:k]:
-        top = failing[-1]
-        return f"{name}=1" if top == 1 else (f"{name}<=3" if top <= 3 else f"{name}<=N")
-    if failing == allv[-k:]:
-        lo = failing[0]
-        return f"{name}>=2" if lo == 2 else f"{name}>=N"
+    if failing == [1]:
+        return f"{name}=1"
     if failing[-1] <= 3:
-        return f"{name}<=3:some"
+        return f"{name}<=3"
     return f"{name}:some"
 
 
@@ -458,10 +453,29 @@ def _kinds_tag(c):
     return "".join(ch for ch, k in (("B", "box"), ("F", "flow"), ("X", "fixed")) if k in ks) or "-"
 
 
-def shape_of(node, mode):
-    """abstract shape of the blamed node.  Text-bearing leaves: merged character classes of all their texts + non-default
-    align / wrap.  Other classes: their option kinds (vmon.gen.trees.options).  Children: item kind + the sizing modes the
-    child supports (B box, F flow, X fixed) -- not the child's class, which is incidental to the container's mechanism."""
+STRUCTURAL = {
+    "Padding": lambda r: ["w:" + T._kindof(r["width"]), "minw" if r["min_width"] else None],
+    "Filler": lambda r: ["h:" + T._kindof(r["height"]), "minh" if r["min_height"] else None, "tb>0" if (r["top"] or r["bottom"]) else None],
+    "Overlay": lambda r: ["w:" + T._kindof(r["width"]), "h:" + T._kindof(r["height"]), "minw" if r["min_width"] else None, "minh" if r["min_height"] else None],
+    "Columns": lambda r: ["boxcols" if r["box_columns"] else None],
+    "LineBox": lambda r: ["title" if r["title"] else None, ("off:" + "".join(r["off"])) if r.get("off") else None],
+    "ScrollBar": lambda r: ["w1" if r["width"] == 1 else "w>1"],
+    "Scrollable": lambda r: ["pos>0" if r.get("scrollpos") else None],
+    "BigText": lambda r: ["empty" if not r["text"] else None],
+    "BarGraph": lambda r: [f"seg{r['nseg']}", "satt" if r["satt"] else None, "bw" if r.get("bar_width") else None, "nobars" if not r["data"] else None],
+    "ProgressBar": lambda r: ["satt" if r["satt"] else None],
+    "GraphVScale": lambda r: ["nolabels" if not r["labels"] else None],
+    "Divider": lambda r: ["tb>0" if (r["top"] or r["bottom"]) else None],
+}
+
+
+def shape_of(node, mode, smode):
+    """abstract shape of the blamed node (mechanism level, no values).
+    Text-bearing leaves: {merged character classes of all their texts, non-default align, non-default wrap}.
+    Other classes: Class{structural option kinds}[children], where children of Pile/Columns/Frame/Overlay are given by
+    their item kind, and a 'pack'/'weight' child that does not itself support the sizing mode the parent was rendered in is
+    flagged (pack:!F = a PACK child that is not a flow widget inside a flow render).  Siblings that are not flagged are
+    incidental and are left out when a flagged child exists."""
     t = node["t"]
     if t in TEXT_LEAVES:
         cl, byt = [], False
@@ -485,27 +499,36 @@ def shape_of(node, mode):
             opts.append(node["align"])
         if node.get("wrap", "space") != "space":
             opts.append(node["wrap"])
-        return t + "{" + ",".join(opts) + "}"
-    opts = T.options(node, mode)
+        return "{" + ",".join(opts) + "}"
+    opts = [o for o in STRUCTURAL.get(t, lambda r: [])(node) if o]
     s = t + ("{" + ",".join(opts) + "}" if opts else "")
     cs = T.children(node)
     if not cs:
         return s + ("[]" if t in T.CONTAINER_CLASSES else "")
-    parts = []
+    letter = {"box": "B", "flow": "F", "fixed": "X"}[smode]
+    parts, flagged = [], []
     for i, c in enumerate(cs):
         tag = ""
         if t in ("Pile", "Columns"):
             tag = node["items"][i][0]
-            if t == "Columns" and i in (node.get("box_columns") or []):
+            isbox = t == "Columns" and i in (node.get("box_columns") or [])
+            if isbox:
                 tag += "+box"
-            tag += ":"
+            if tag in ("pack", "weight") and letter not in _kinds_tag(c):
+                flagged.append(f"{tag}:!{letter}")
+                continue
         elif t == "Frame":
-            tag = node["parts"][i] + ":"
+            tag = node["parts"][i]
         elif t == "Overlay":
-            tag = ("top", "bottom")[i] + ":"
-        parts.append(tag + _kinds_tag(c) + ("(empty)" if c["t"] in T.CONTAINER_CLASSES and not T.children(c) else ""))
-    if t in ("Pile", "Columns", "GridFlow", "ListBox"):
-        parts = sorted(set(parts))
+            tag = ("top", "bottom")[i]
+            if i == 0:
+                tag += ":" + _kinds_tag(c)
+        else:
+            tag = _kinds_tag(c)
+        if c["t"] in T.CONTAINER_CLASSES and not T.children(c):
+            tag += "(empty)"
+        parts.append(tag)
+    parts = sorted(set(flagged)) if flagged else sorted(set(parts))
     return s + "[" + ",".join(parts) + "]"
 
 
@@ -513,7 +536,7 @@ def signature(env, recipe, f, sclass):
     node = T.node_at(recipe, f.path)
     kind = f.kind + (f"@in:{f.inner}" if f.inner else "")
     via = "" if not f.path else "|nested"
-    return f"C01|{f.cls}|{f.smode}|{kind}|{shape_of(node, env.mode)}|{sclass}{via}"
+    return f"C01|{f.cls}|{f.smode}|{kind}|{shape_of(node, env.mode, f.smode)}|{sclass}{via}"
 
 
 def prekey(env, recipe, f):
